@@ -1,12 +1,12 @@
 package engine
 
 import (
-	"sync"
 	"crypto/sha256"
 	"fmt"
 	repocommon "github.com/nspcc-dev/neofs-contract/common"
 	"sort"
 	"strings"
+	"sync"
 
 	"github.com/nspcc-dev/neo-go/pkg/core/native/nativenames"
 	"github.com/nspcc-dev/neo-go/pkg/crypto/keys"
@@ -129,6 +129,9 @@ func (d *AuthGrid) Build() *World {
 	w.FundGAS(d.u.Hash, 100*gasUnit)
 	w.Invoke(nns.Hash, []neotest.Signer{d.u.S}, "register", "uu.com", d.u.Hash, "e@x.y", int64(3600), int64(600), int64(100000), int64(3600))
 	w.Invoke(nns.Hash, []neotest.Signer{d.u.S}, "addRecord", "uu.com", int64(rtTXT), "t0")
+	// ... and a name of U's that has an administrator (V)
+	w.Invoke(nns.Hash, []neotest.Signer{d.u.S}, "register", "ww.com", d.u.Hash, "e@x.y", int64(3600), int64(600), int64(100000), int64(3600))
+	w.Invoke(nns.Hash, []neotest.Signer{d.u.S, d.v.S}, "setAdmin", "ww.com", d.v.Hash)
 	for _, a := range []*Account{d.u, d.x, d.sn, d.v} {
 		w.Track(a.Name, a.Hash, false)
 	}
@@ -194,6 +197,9 @@ func (d *AuthGrid) Cases(string) []GridCase {
 		if r.Kind == "safe" {
 			sets = []string{"ALL"}
 		}
+		if r.Kind == "admin" {
+			sets = append(append([]string{}, sets...), "ADM") // the administrator of the enclosing name, alone
+		}
 		if r.Kind != "safe" && namesTwoKeys(r) {
 			sets = append(append([]string{}, sets...), "K1", "K2") // each of the two named keys alone
 		}
@@ -230,6 +236,8 @@ func (d *AuthGrid) witnesses(w *World, set string, keys []util.Uint160) []util.U
 			}
 		case "AUD":
 			out = append(out, d.aud.Hash)
+		case "ADM":
+			out = append(out, d.v.Hash)
 		case "M-minority":
 			for i := 0; i < d.N*2/3; i++ { // one short of the Alphabet threshold, as single keys
 				out = append(out, w.Members[i].Hash)
@@ -522,6 +530,14 @@ func authTable() []authRow {
 		{"nns", "register", func(d *AuthGrid, w *World) []any {
 			return []any{"s.uu.com", d.x.Hash, "e@x.y", int64(1), int64(2), int64(100000), int64(4)}
 		}, k("U", "X"), ""},
+		// a sub-name for the parent's owner, who is the owner named in the arguments: the parent's administrator may
+		// register sub-names, but not on behalf of an owner who does not sign
+		{"nns", "register", func(d *AuthGrid, w *World) []any {
+			return []any{"s.ww.com", d.u.Hash, "e@x.y", int64(1), int64(2), int64(100000), int64(4)}
+		}, k("U"), "admin"},
+		{"nns", "register", func(d *AuthGrid, w *World) []any {
+			return []any{"s.ww.com", d.x.Hash, "e@x.y", int64(1), int64(2), int64(100000), int64(4)}
+		}, [][]string{{"U", "X"}, {"V", "X"}}, ""},
 		{"nns", "registerTLD", func(d *AuthGrid, w *World) []any {
 			return []any{"org", "e@x.y", int64(1), int64(2), int64(100000), int64(4)}
 		}, cm, ""},
